@@ -728,3 +728,5 @@ mutant("C16-M30", "C16", "R16j", "program set time axis taken from the last tabl
 mutant("C16-M31", "C16", "R16j", "year columns collected only for programs with spending data", PR, "ProgramSet._read_spending", "            times.update(set(tdve.tvec))", "            if prog.spend_data.has_data:\n                times.update(set(tdve.tvec))")
 mutant("C17-M18", "C17", "R17a", "perturbations drawn from a module-level Generator", U, "TimeSeries.sample", "delta = self.sigma * np.random.randn(1)[0]", "delta = self.sigma * _rng.standard_normal()", edits=[dict(file=U, old="import sciris as sc\nfrom .system import logger\n", new="import sciris as sc\nfrom .system import logger\n\n_rng = np.random.default_rng()\n"), dict(file=U, func="TimeSeries.sample", old="delta = self.sigma * np.random.randn(1)[0]", new="delta = self.sigma * _rng.standard_normal()")])
 mutant("C18-M23", "C18", "R20i", "nesting check compares every stage with the first", CS, "validate_cascade", "if not (set(expanded[i + 1]) <= set(expanded[i])):", "if not (set(expanded[i + 1]) <= set(expanded[0])):")
+mutant("C01-M27", "C01", "R01m", "junction remembers the last inflow on itself", M, "JunctionCompartment.balance", "        outflow_fractions = [link.parameter.vals[ti] for link in self.outlinks]", "        self._last_inflow = net_inflow\n        outflow_fractions = [link.parameter.vals[ti] for link in self.outlinks]")
+mutant("C08-M22", "C08", "R08g", "update counts its own calls", M, "Compartment.update", "        tr = ti - 1\n", "        self._n_updates = getattr(self, \"_n_updates\", 0) + 1\n        tr = ti - 1\n")
